@@ -14,6 +14,7 @@ import DW.Driver.C04
 import DW.Driver.GenDump
 import DW.Driver.GenLoad
 import DW.Driver.GenEnv
+import DW.Driver.GenLoadV1
 
 open Lean DW.Driver
 
@@ -37,6 +38,7 @@ def dispatch (j : Json) : Except String Json := do
   | "gendumprun" => handleGenDumpRun j
   | "genload" => handleGenLoad j
   | "genenv" => handleGenEnv j
+  | "genloadv1" => handleGenLoadV1 j
   | x => throw s!"unknown op {x}"
 
 def handleLine (line : String) : String :=
